@@ -31,6 +31,7 @@ NewPairs(p, e) ==
       [] e.op = "replace" -> AReplace(p, e.old, e.new, e.v)
       [] e.op = "delete"  -> ADelete(p, e.k)
       [] e.op = "rangerename" -> ARangeRename(p, FnOf(e.f)).pairs
+      [] e.op = "fromitems" -> AMapFromItems(KV(e.items))                \* a constructor: starts a new map
       [] OTHER -> p                                           \* observers do not mutate
 
 \* cheap scalars logged with every mutator event
@@ -72,10 +73,18 @@ OK(p, e) ==
                /\ KV(e.yields) = ARangeRename(p, FnOf(e.f)).yields
                /\ KV(e.range) = ARange(NewPairs(p, e))
                /\ e.len = ALen(NewPairs(p, e))
+         [] e.op = "fromitems" -> KV(e.range) = ARange(NewPairs(p, e)) /\ e.len = ALen(NewPairs(p, e))
+         [] e.op = "derive" ->                                          \* TransformValues / AssertValues / ToMapRecursive: derived, source untouched
+               /\ ~p.nil
+               /\ KV(e.transformed) = LTransform(p.kv, "!")              \* same keys, same order, mapped values
+               /\ KV(e.asserted) = p.kv /\ e.assertok                   \* all values assertable: same map
+               /\ ~e.assertbadok                                        \* one value not assertable: an error, not a partial map
+               /\ AsSet(e.tomaprec) = AsSet([i \in 1..Len(p.kv) |-> <<p.kv[i].k, p.kv[i].v>>])
+               /\ KV(e.range) = p.kv                                    \* the source is unchanged
          [] OTHER -> FALSE
 
 \* after an unexplained event, resume where the state is re-established
-Resume(e) == e.op \in {"reset", "restore"}
+Resume(e) == e.op \in {"reset", "restore", "fromitems"}
 RECURSIVE NextReset(_)
 NextReset(i) == IF i + 1 > N THEN N + 1
                 ELSE IF Resume(Trace[i + 1]) THEN i + 1 ELSE NextReset(i + 1)
